@@ -33,15 +33,45 @@ def user_geometry(n):
     return UserGeom(n)
 
 
+def user_mapped_geometry(spec):
+    """a user-defined mapped geometry (cube of an expansion) that supplies the derivative of its own par2fun"""
+    import cuqi
+    base = gen.make_geometry(spec["base"])
+    E = np.column_stack([np.asarray(base.par2fun(e), dtype=float) for e in np.eye(gen.geom_par_dim(spec["base"]))])
+
+    class UserMapped(cuqi.geometry.MappedGeometry):
+        def gradient(self, direction, wrt):
+            return E.T @ (np.asarray(direction) * 3.0 * (E @ np.asarray(wrt)) ** 2)
+    m, im, _ = gen.MAPS["cube"]
+    return UserMapped(base, m, im)
+
+
+def ref_par2fun(s, p):
+    """par2fun by definition: mapped geometries are composed by the harness from the wrapped geometry and the map"""
+    if s["kind"] == "user":
+        return np.exp(0.5 * np.asarray(p, dtype=float))
+    if s["kind"] in ("mapped", "usermapped"):
+        return gen.MAPS[s.get("map", "cube")][0](ref_par2fun(s["base"], p))
+    return np.asarray(gen.make_geometry(s).par2fun(np.array(p, dtype=float)))
+
+
+def ref_fun2par(s, f):
+    if s["kind"] == "user":
+        return 2.0 * np.log(np.asarray(f, dtype=float))
+    if s["kind"] in ("mapped", "usermapped"):
+        return ref_fun2par(s["base"], gen.MAPS[s.get("map", "cube")][1](np.asarray(f, dtype=float)))
+    return np.asarray(gen.make_geometry(s).fun2par(np.array(f, dtype=float)))
+
+
 @st.composite
 def model_cases(draw, tier="quick"):
     kind = draw(st.sampled_from(["jac", "grad", "noderiv", "lin_matrix", "lin_func"]))
     if kind in ("jac", "lin_matrix"):
-        dom_kinds = ["default", "cont1d", "discrete", "kl", "step", "mapped1d", "user"]
-        ran_kinds = ["default", "cont1d", "discrete", "mapped1d"]
+        dom_kinds = ["default", "cont1d", "discrete", "kl", "step", "mapped1d", "user", "usermapped"]
+        ran_kinds = ["default", "cont1d", "discrete", "mapped1d", "kl", "step"]
     else:
-        dom_kinds = ["default", "cont1d", "discrete", "kl", "step", "mapped1d", "user", "image", "cont2d", "mappedimg"]
-        ran_kinds = ["default", "cont1d", "discrete", "mapped1d", "image"]
+        dom_kinds = ["default", "cont1d", "discrete", "kl", "step", "mapped1d", "user", "usermapped", "image", "cont2d", "mappedimg"]
+        ran_kinds = ["default", "cont1d", "discrete", "mapped1d", "image", "kl", "step"]
     dk = draw(st.sampled_from(dom_kinds))
     rk = draw(st.sampled_from(ran_kinds + ["cont1d", "default"]))
 
@@ -57,11 +87,15 @@ def model_cases(draw, tier="quick"):
                     "map": draw(st.sampled_from(["exp", "cube"])), "imap": draw(st.booleans())}
         n = draw(st.integers(2, 5))
         if k == "mapped1d":
-            return {"kind": "mapped", "base": {"kind": "cont1d", "fun_dim": n},
-                    "map": "affine" if is_range else draw(st.sampled_from(["exp", "cube", "affine"])),
+            # the wrapped geometry may itself be an expansion (fun2par = inverse map, then the expansion's projection)
+            base = draw(gen.geom1d_spec(n, ["cont1d", "cont1d", "kl", "step"]))
+            return {"kind": "mapped", "base": base,
+                    "map": draw(st.sampled_from(["affine", "cube"])) if is_range else draw(st.sampled_from(["exp", "cube", "affine"])),
                     "imap": True if is_range else draw(st.sampled_from([True, True, False]))}
         if k == "user":
             return {"kind": "user", "fun_dim": n}
+        if k == "usermapped":
+            return {"kind": "usermapped", "base": draw(gen.geom1d_spec(max(n, 3), ["kl", "kl", "step"])), "map": "cube", "imap": True}
         return draw(gen.geom1d_spec(n, [k]))
     dom, ran = spec(dk, False), spec(rk, True)
     nf = int(np.prod(fun_shape(dom)))
@@ -74,14 +108,20 @@ def model_cases(draw, tier="quick"):
 
 
 def fun_shape(s):
+    if s["kind"] == "usermapped":
+        return gen.geom_fun_shape(s["base"])
     return (s["fun_dim"],) if s["kind"] == "user" else gen.geom_fun_shape(s)
 
 
 def par_dim(s):
+    if s["kind"] == "usermapped":
+        return gen.geom_par_dim(s["base"])
     return s["fun_dim"] if s["kind"] == "user" else gen.geom_par_dim(s)
 
 
 def make_geom(s):
+    if s["kind"] == "usermapped":
+        return user_mapped_geometry(s)
     return user_geometry(s["fun_dim"]) if s["kind"] == "user" else gen.make_geometry(s)
 
 
@@ -120,8 +160,8 @@ def build(c):
 
 
 def tags_of(c):
-    dk = c["dom"]["kind"] if c["dom"]["kind"] != "mapped" else "mapped_" + c["dom"]["base"]["kind"]
-    rk = c["ran"]["kind"] if c["ran"]["kind"] != "mapped" else "mapped"
+    dk = c["dom"]["kind"] if c["dom"]["kind"] not in ("mapped", "usermapped") else c["dom"]["kind"] + "_" + c["dom"]["base"]["kind"]
+    rk = c["ran"]["kind"] if c["ran"]["kind"] != "mapped" else "mapped_" + c["ran"]["base"]["kind"] + "_" + c["ran"]["map"]
     return {"model": c["kind"], "dom": dk, "ran": rk}
 
 
@@ -132,8 +172,8 @@ def run_forward(c, rec):
     model, dom, ran, F = must(lambda: build(c), "constructing the model")
     P = A(c["P"]).T
     p = P[:, 0].copy()
-    f = np.asarray(dom.par2fun(p.copy()))
-    y0 = np.asarray(ran.fun2par(F(f)), dtype=float)
+    f = ref_par2fun(c["dom"], p)
+    y0 = np.asarray(ref_fun2par(c["ran"], F(f)), dtype=float)
     require(y0.shape == (par_dim(c["ran"]),), "harness: reference output shape")
     # (a) plain parameter vector
     ya = must(lambda: model.forward(p.copy()), "forward(ndarray)")
@@ -151,7 +191,7 @@ def run_forward(c, rec):
     # the array may carry the model's own geometry object or an equal geometry built separately (equality of geometries is by value)
     dom_twin = make_geom(c["dom"])
     twin_ok = dom_twin == dom
-    if c["dom"]["kind"] not in ("mapped", "user"):
+    if c["dom"]["kind"] not in ("mapped", "user", "usermapped"):
         # geometries built from the same plain arguments are equal by value - also after one of them has been used
         require(twin_ok, "two geometries built from the same arguments are not equal (after one of them has been used by the model)",
                 kind=c["dom"]["kind"])
@@ -169,7 +209,7 @@ def run_forward(c, rec):
     Ys = must(lambda: model.forward(S), "forward(Samples)")
     require(isinstance(Ys, cuqi.samples.Samples) and Ys.Ns == P.shape[1] and Ys.geometry == ran, "Samples input must give Samples over the range geometry")
     for i in range(P.shape[1]):
-        yi = np.asarray(ran.fun2par(F(np.asarray(dom.par2fun(P[:, i].copy())))), dtype=float)
+        yi = np.asarray(ref_fun2par(c["ran"], F(ref_par2fun(c["dom"], P[:, i]))), dtype=float)
         require(close(Ys.samples[:, i], yi, 1e-12), "forward(Samples) is not column-wise forward", i=i)
     require(maxdiff(S.samples, P) == 0, "forward altered the input samples")
     # an integer-typed sample array: the same map, nothing truncated
@@ -197,7 +237,7 @@ def run_gradient(c, rec):
     p = A(c["P"])[0].copy()
     d = A(c["d"])
     has_deriv = c["kind"] != "noderiv"
-    can = has_deriv and identity_like(c["ran"]) and (identity_like(c["dom"]) or c["dom"]["kind"] == "user")
+    can = has_deriv and identity_like(c["ran"]) and (identity_like(c["dom"]) or c["dom"]["kind"] in ("user", "usermapped"))
     refused, g = refuses(lambda: model.gradient(d.copy(), p.copy()))
     if not can:
         require(refused, "gradient returned a vector although it cannot be formed correctly "
@@ -224,9 +264,16 @@ def run_gradient(c, rec):
     require(isinstance(ga, cuqi.array.CUQIarray) and ga.geometry == dom and close(np.asarray(ga), g, 1e-12),
             "gradient with CUQIarray direction differs or is not wrapped with the domain geometry")
     # linearisation point given as function values
-    f = np.asarray(dom.par2fun(p.copy()))
-    gf = must(lambda: model.gradient(d.copy(), f, is_wrt_par=False), "gradient(is_wrt_par=False)")
-    require(close(np.asarray(gf, dtype=float), g, 1e-9), "gradient with wrt given as function values differs")
+    f = ref_par2fun(c["dom"], p)
+    if maxdiff(ref_fun2par(c["dom"], f), p) <= 1e-9:
+        # (the function is a function of this geometry: its parameters are recovered exactly)
+        gf = must(lambda: model.gradient(d.copy(), f.copy(), is_wrt_par=False), "gradient(is_wrt_par=False)")
+        require(close(np.asarray(gf, dtype=float), g, 1e-7), "gradient with wrt given as function values differs")
+        fa = cuqi.array.CUQIarray(f.copy(), is_par=False, geometry=dom)
+        gfa = must(lambda: model.gradient(d.copy(), fa), "gradient(function-value CUQIarray wrt)")
+        require(close(np.asarray(gfa, dtype=float), g, 1e-7), "gradient with wrt given as a function-value CUQIarray differs")
+    else:
+        rec.count("wrt_roundtrip_inexact")
     wa = cuqi.array.CUQIarray(p.copy(), is_par=True, geometry=dom)
     gw = must(lambda: model.gradient(d.copy(), wa), "gradient(CUQIarray wrt)")
     require(close(np.asarray(gw, dtype=float), g, 1e-12), "gradient with CUQIarray wrt differs")
